@@ -5,10 +5,11 @@
    nat stays Coq's unary type (lengths and fuel only). *)
 From Coq Require Import Extraction ExtrOcamlBasic ExtrOcamlZBigInt List NArith ZArith.
 From GmsmVerif Require Import Lib.Outcome EC.ECAffine EC.SM2Curve SM3.SM3Spec
-     SM2.SM2Bytes SM2.SM2Spec SM2.DER SM2.SM2Model.
+     SM2.SM2Bytes SM2.SM2Spec SM2.DER SM2.SM2Model SM2.SM2Consumers.
 Extraction Language OCaml.
 Extraction "sm2_model.ml"
   key_of Sm2Sign Sign Sm2Verify Verify PublicKey_Verify Sm3Digest
   Encrypt EncryptAsn1 Decrypt DecryptAsn1 PrivateKey_Decrypt CipherMarshal CipherUnmarshal
+  verifyHandshakeSignature_sm2 verifyHandshakeSignature_ecdsa x509_checkSignature_sm2 processClientKeyExchange
   KeyExchangeA KeyExchangeB keXHat kdf sig_decode sig_encode ScalarBaseMult
   sm3 os2ip i2osp sm2_n.
